@@ -1,6 +1,6 @@
 #!/bin/bash
 # runs every claimed check of the given tier sequentially; prints one line per check
-cd /verif
+cd "$(dirname "$0")/.."
 TIER=${1:-quick}
 for pid in $(python3 -c "import json;print(' '.join(c['property_id'] for c in json.load(open('MANIFEST.json'))['checks']))"); do
   s=$(date +%s)
